@@ -24,7 +24,7 @@ def generate(rng, tier):
                 for Y in range(nout):
                     for lorch in (False, True):
                         for omitted in (False, True):
-                            c = F.gen_named_case(rng, "quick", direction, X, Y, lorch=lorch, omitted=omitted, channel=2)
+                            c = F.gen_named_case(rng, "quick", direction, X, Y, lorch=lorch, omitted=omitted, channel=2, unsorted=(not lorch and not omitted and (X + Y) % 2 == 0))
                             # every method sees uncertainties given (non-zero) and absent
                             if lorch == omitted:
                                 c["dy"] = [rng.logu(1e-4, 0.5) for _ in c["xin"]]
